@@ -657,9 +657,38 @@ def _m5_columns(ck: Check) -> None:
           "header, spaces and attractor states use one variable order", key="summary columns")
 
 
+def _m5_build_expansion(ck: Check) -> None:
+    """build() expands with the motif-avoidance search switched on: without it the block expansion leaves successors of
+    clean blocks unexpanded that can hold motif-avoidant attractors, and the summary misses them."""
+    prog = ck.prog
+    fm = prog.fm(SD_MOD, "SuccessionDiagram.build")
+    calls = [c for c in own_walk(fm.f.node) if isinstance(c, ast.Call) and callee_name(c) in ("expand_block", "expand_source_blocks", "expand_scc", "expand_source_SCCs")]
+    if not calls:
+        return
+    for c in calls:
+        bad = [k for k in c.keywords if k.arg in ("find_motif_avoidant_attractors", "check_maa") and not is_true(k.value)]
+        bad += [a for a in c.args[:1] if callee_name(c) in ("expand_block", "expand_scc") and not is_true(a)]
+        ck.ob("M5", fm, fm.f.stmt_of(c), not bad, "build() expands with the motif-avoidance search on" if not bad else
+              f"`{text(c)[:60]}` switches the motif-avoidance search of the expansion off: successors that the clean-block argument "
+              f"would have forced open stay unexpanded, and their motif-avoidant attractors are missing after build()",
+              key="build expansion flags")
+    for q, pn in (("SuccessionDiagram.expand_block", "find_motif_avoidant_attractors"), ("SuccessionDiagram.expand_scc", "find_motif_avoidant_attractors")):
+        try:
+            g = prog.fm(SD_MOD, q)
+        except AnalysisError:
+            continue
+        if pn in g.f.params():
+            d = g.f.param_defaults().get(pn)
+            okd = d is not None and is_true(d)
+            ck.ob("M5", g, g.f.node, okd, f"`{pn}` defaults to True" if okd else
+                  f"`{pn}` of {q.split('.')[1]} defaults to `{text(d) if d is not None else 'nothing'}`: build() and every caller that "
+                  f"relies on the default expand without the motif-avoidance search", key=f"default of {pn} in {q}")
+
+
 def m5(ck: Check) -> None:
     prog = ck.prog
     _m5_columns(ck)
+    _m5_build_expansion(ck)
     for q, acc in AGG.items():
         fm = prog.fm(SD_MOD, q)
         f = fm.f
